@@ -59,6 +59,13 @@ Clauses(S, o) ==
           {<<o.biplinks[k][1], o.biplinks[k][2]>> : k \in DOMAIN o.biplinks} =
              {p \in NodeSet(S) \X EdgeSet(S) : p[1] \in S.e2n[p[2]]}
           /\ Len(o.biplinks) = SumSeq(SeqSize(S))>>,
+     <<"to_bipartite_graph.directed",
+          LET T == o.dbip[1]  Hd == o.dbip[2]  A == o.dbip[3] IN
+          /\ {<<A[k][1], A[k][2], A[k][3]>> : k \in DOMAIN A} =
+               {<<"t", n, k>> : <<n, k>> \in {p \in (UNION {Range(T[k]) : k \in DOMAIN T}) \X DOMAIN T : p[1] \in Range(T[p[2]])}}
+               \cup {<<"h", n, k>> : <<n, k>> \in {p \in (UNION {Range(Hd[k]) : k \in DOMAIN Hd}) \X DOMAIN Hd : p[1] \in Range(Hd[p[2]])}}
+          /\ Len(A) = Cardinality({<<A[k][1], A[k][2], A[k][3]>> : k \in DOMAIN A})
+          /\ o.dbip[4][1] = o.dbip[4][2]>>,
      <<"to_encapsulation_dag", \A k \in DOMAIN o.dag :
           LET e == o.dag[k] IN
           /\ Range(e.nodes) = EdgeSet(S)
